@@ -12,6 +12,7 @@ import AnthemModel.Proofs.ExternalOutlineTask
 import AnthemModel.Proofs.PrivateExist
 import AnthemModel.Proofs.RenameFresh
 import AnthemModel.Props.C11
+import AnthemModel.Proofs.SimplifyShape
 namespace Anthem
 open Asp C11
 
@@ -196,6 +197,213 @@ theorem theoryTranslate_nosimp (t : ExternalTask) (fuel : Nat) (p : Program) (th
     | none => simp [hc] at h
     | some Γ => simp only [hc] at h; injection h with h; exact ⟨Γ, rfl, h.symm⟩
 
+/-! ## the formulas of `theory_translate`, with or without simplification -/
+
+/-- the shapes of the formulas of `completion(tau*(P))`: a constraint `forall (body -> #false)` whose body
+    has no implications, or a completed definition -/
+theorem completion_shapes (P : Program) (ins : List Pred) (hp : globalsPanic P = false) (Γ : Theory)
+    (hΓ : completion (tauStar P) ins = some Γ) : ∀ F ∈ Γ,
+      (∃ X : Formula, X.pos = true ∧ F = (Formula.bin .imp X .fls).universalClosure) ∨
+      (∃ A fs, F = completeDefinition A fs) := by
+  obtain ⟨hn, hfresh, hglen⟩ := chooseFreshGlobals_spec P hp
+  have hcomp := components_tauStar P hp
+  obtain ⟨hspec, hcons⟩ := collect_spec (P.map fun r => ruleComponent r (chooseFreshGlobals P)) ([], [])
+    (fun _ _ => False) ⟨List.nodup_nil, by simp⟩
+  simp only [false_or, List.not_mem_nil] at hspec hcons
+  have hne := collect_nonempty (P.map fun r => ruleComponent r (chooseFreshGlobals P)) ([], []) (by simp)
+  have hla : ∀ r ∈ P, ∀ a ch, HeadOf r a ch → a.args.length ≤ (chooseFreshGlobals P).length := by
+    intro r hr a ch hh
+    rw [hglen, ← headOf_arity hh]; exact arity_le_maxHeadArity P r hr
+  have hentry : ∀ e ∈ (collect (P.map fun r => ruleComponent r (chooseFreshGlobals P)) ([], [])).1,
+      ∃ r ∈ P, ∃ a ch, HeadOf r a ch ∧ e.1 = tauHeadAtom a (chooseFreshGlobals P) := by
+    intro e he
+    obtain ⟨f, hf⟩ := List.exists_mem_of_ne_nil _ (hne e he)
+    obtain ⟨r, hr, a, ch, hh, _, hA⟩ := (mem_comps_partialDef P _ f e.1).mp ((hspec.2 e.1 f).mp ⟨e.2, he, hf⟩)
+    exact ⟨r, hr, a, ch, hh, hA⟩
+  have hkeys : ∀ e ∈ (collect (P.map fun r => ruleComponent r (chooseFreshGlobals P)) ([], [])).1,
+      ∀ e' ∈ (collect (P.map fun r => ruleComponent r (chooseFreshGlobals P)) ([], [])).1,
+      e.1.predicate = e'.1.predicate → e.1 = e'.1 := by
+    intro e he e' he' hpe
+    obtain ⟨r, hr, a, ch, hh, hA⟩ := hentry e he
+    obtain ⟨r', hr', a', ch', hh', hA'⟩ := hentry e' he'
+    rw [hA, hA'] at hpe ⊢
+    rw [tauHeadAtom_predicate a _ (hla r hr a ch hh), tauHeadAtom_predicate a' _ (hla r' hr' a' ch' hh')] at hpe
+    simp only [Asp.Atom.predicate, Pred.mk.injEq] at hpe
+    exact (tauHeadAtom_eq (hla r hr a ch hh) (hla r' hr' a' ch' hh')).mpr hpe
+  obtain ⟨Γ', hΓ', hmem⟩ := completion_formulas (tauStar P) ins _ _ hcomp hkeys
+  rw [hΓ] at hΓ'
+  injection hΓ' with hΓ'
+  subst hΓ'
+  intro F hF
+  rcases (hmem F).mp hF with ⟨c, hc, rfl⟩ | ⟨e, _, _, rfl⟩ | ⟨p, _, _, _, rfl⟩
+  · left
+    obtain hc' := (hcons c).mp hc
+    obtain ⟨r, hr, hcr⟩ := List.mem_map.mp hc'
+    unfold ruleComponent at hcr
+    split at hcr
+    · injection hcr with hcr
+      subst hcr
+      exact ⟨tauBody r.body, pos_tauBody r.body, rfl⟩
+    · cases hcr
+    · cases hcr
+  · exact Or.inr ⟨_, _, rfl⟩
+  · exact Or.inr ⟨_, _, rfl⟩
+
+/-- simplification does not change the head predicate of a formula of the completion -/
+theorem headPredicate_simplify_completion (P : Program) (ins : List Pred) (hp : globalsPanic P = false) (Γ : Theory)
+    (hΓ : completion (tauStar P) ins = some Γ) (F : Formula) (hF : F ∈ Γ) (fuel : Nat) :
+    headPredicate (simplifyWith .classic .fixpoint fuel F).1 = headPredicate F := by
+  rcases completion_shapes P ins hp Γ hΓ F hF with ⟨X, hX, rfl⟩ | ⟨A, fs, rfl⟩
+  · rw [headPredicate_pos _ (pos_simplify_constraint X hX fuel)]
+    unfold Formula.universalClosure
+    rw [headPredicate_quantify]
+    rfl
+  · rw [headPredicate_simplify_completeDefinition, headPredicate_completeDefinition]
+
+/-! ### placeholders: `replace_placeholders` is a substitution for symbolic constants -/
+
+theorem headPredicate_substSym (θ : String → GTerm) : ∀ F : Formula, headPredicate (F.substSym θ) = headPredicate F := by
+  intro F
+  induction F with
+  | atomic a => rfl
+  | not f _ => rfl
+  | bin c l r _ _ =>
+    cases c <;> try rfl
+    cases l with
+    | atomic a =>
+      cases a with
+      | atom a => simp [Formula.substSym, AtomicF.substSym, headPredicate, Atom.predicate]
+      | _ => rfl
+    | _ => rfl
+  | quant q vs f ih =>
+    cases q
+    · simp only [Formula.substSym, headPredicate]; exact ih
+    · rfl
+
+theorem pos_substSym (θ : String → GTerm) : ∀ F : Formula, (F.substSym θ).pos = F.pos := by
+  intro F
+  induction F with
+  | atomic a => rfl
+  | not f ih => simp only [Formula.substSym, Formula.pos]; exact ih
+  | bin c l r ihl ihr => simp only [Formula.substSym, Formula.pos, ihl, ihr]
+  | quant q vs f ih => simp only [Formula.substSym, Formula.pos]; exact ih
+
+theorem iffRoot_substSym (θ : String → GTerm) (A : Atom) (F : Formula) (h : IffRoot (.atomic (.atom A)) F) :
+    IffRoot (.atomic (.atom ⟨A.pred, A.args.map (GTerm.substSym θ)⟩)) (F.substSym θ) := by
+  rcases h with ⟨r, rfl⟩ | ⟨vs, r, rfl⟩
+  · exact Or.inl ⟨_, rfl⟩
+  · exact Or.inr ⟨_, _, rfl⟩
+
+/-- the head predicate of a formula of the completion survives the placeholder substitution followed by
+    simplification -/
+theorem headPredicate_simplify_substSym_completion (P : Program) (ins : List Pred) (hp : globalsPanic P = false)
+    (Γ : Theory) (hΓ : completion (tauStar P) ins = some Γ) (F : Formula) (hF : F ∈ Γ)
+    {θ : String → GTerm} (hθ : ClosedSubst θ) (fuel : Nat) :
+    headPredicate (simplifyWith .classic .fixpoint fuel (F.substSym θ)).1 = headPredicate F := by
+  rcases completion_shapes P ins hp Γ hΓ F hF with ⟨X, hX, rfl⟩ | ⟨A, fs, rfl⟩
+  · rw [universalClosure_substSym hθ]
+    have : (Formula.bin .imp X .fls).substSym θ = Formula.bin .imp (X.substSym θ) .fls := rfl
+    rw [this, headPredicate_pos _ (pos_simplify_constraint _ (by rw [pos_substSym]; exact hX) fuel)]
+    unfold Formula.universalClosure
+    rw [headPredicate_quantify]
+    rfl
+  · have hroot := iffRoot_substSym θ A _ (iffRoot_completeDefinition A fs)
+    show headPredicate (applyFixpointFuel (compose Portfolio.classic.rewrites) fuel _).1 = _
+    rw [headPredicate_iffRoot _ _ (applyFixpointFuel_iffRoot _ (keepsIff_compose _ keepsIff_classic) _ fuel _ hroot),
+      headPredicate_completeDefinition]
+    simp [Atom.predicate]
+
+/-- the formulas `theory_translate` returns: those of the completion with the placeholders replaced, and
+    the empty definitions of the missing output predicates, each simplified or not according to the task -/
+theorem theoryTranslate_members (t : ExternalTask) (m : PlaceholderMap) (fuel : Nat) (p : Program) (th : Theory)
+    (h : theoryTranslate t m fuel p = .ok th) :
+    ∃ Γ, completion (tauStar p) t.userGuide.inputs = some Γ ∧ ∀ F' ∈ th,
+      ∃ F ∈ Γ.map (Formula.substSym (phTheta m)) ++
+          (missingOutputs t p).map (fun q => completeDefinition (atomFromPred q) []),
+        F' = F ∨ F' = (simplifyWith .classic .fixpoint fuel F).1 := by
+  unfold theoryTranslate at h
+  split at h
+  · cases h
+  · rw [map_replacePlaceholders_eq] at h
+    simp only at h
+    rw [completion_substSym (phTheta_closed m)] at h
+    cases hc : completion (tauStar p) t.userGuide.inputs with
+    | none => simp [hc] at h
+    | some Γ =>
+      refine ⟨Γ, rfl, ?_⟩
+      simp only [hc, Option.map_some] at h
+      split at h
+      · cases hs : simplifyTheory .classic fuel
+            (Γ.map (Formula.substSym (phTheta m)) ++
+              (missingOutputs t p).map fun q => completeDefinition (atomFromPred q) []) with
+        | none => simp [hs] at h
+        | some th' =>
+          simp only [hs] at h
+          injection h with h
+          subst h
+          intro F' hF'
+          rw [simplifyTheory_some hs] at hF'
+          obtain ⟨F, hF, rfl⟩ := List.mem_map.mp hF'
+          exact ⟨F, hF, Or.inr rfl⟩
+      · injection h with h
+        subst h
+        intro F' hF'
+        exact ⟨F', hF', Or.inl rfl⟩
+
+/-- **the assumptions of a translated program hold wherever its private definitions hold**: if an
+    interpretation satisfies the reference form of the completed definition of every non-public predicate
+    of the program (read with the placeholder values the interpretation gives), it satisfies every formula
+    that `control_translate` marks as an assumption - whether or not the theory was simplified -/
+theorem side_assumptions_hold (t : ExternalTask) (m : PlaceholderMap) (fuel : Nat) (p : Program) (th : Theory)
+    (h : theoryTranslate t m fuel p = .ok th) (R : PredI) (fc : FcI) (ρ : Asg)
+    (hdef : ∀ q ∈ p.preds, q ∉ t.userGuide.publicPreds →
+      DefHolds (p.substSym (phNu m fc)) R fc q.symbol q.arity) :
+    ∀ a ∈ controlTranslate t.userGuide.publicPreds th, a.role = .assumption → sat ⟨R, fc⟩ a.formula ρ := by
+  obtain ⟨Γ, hΓ, hmem⟩ := theoryTranslate_members t m fuel p th h
+  have hpP : globalsPanic p = false := (theoryTranslate_ok_ph t m fuel p th h).1
+  -- the completion of the program with the placeholder values put in
+  have hΓν : completion (tauStar (p.substSym (phNu m fc))) t.userGuide.inputs =
+      some (Γ.map (Formula.substSym (thetaOf (phNu m fc)))) := by
+    rw [tauStar_substSym, completion_substSym (thetaOf_closed _), hΓ]; rfl
+  intro a0 ha0 hrole
+  unfold controlTranslate at ha0
+  rcases controlTranslate_roles t.userGuide.publicPreds th ([], 0) a0 ha0 with hnil | ⟨hmemth, hroleinfo⟩
+  · cases hnil
+  obtain ⟨q, hq, hnq⟩ := hroleinfo hrole
+  obtain ⟨F, hF, hFF⟩ := hmem _ hmemth
+  rcases List.mem_append.mp hF with hin | hin
+  · -- a formula of the completion, placeholders replaced
+    obtain ⟨F0, hF0, rfl⟩ := List.mem_map.mp hin
+    have hq' : headPredicate F0 = some q := by
+      rcases hFF with e | e
+      · rw [← headPredicate_substSym (phTheta m), ← e]; exact hq
+      · rw [← headPredicate_simplify_substSym_completion p _ hpP Γ hΓ F0 hF0 (phTheta_closed m) fuel, ← e]; exact hq
+    have hsat : sat ⟨R, fc⟩ a0.formula ρ ↔ sat ⟨R, fc⟩ (F0.substSym (thetaOf (phNu m fc))) ρ := by
+      have h1 : sat ⟨R, fc⟩ a0.formula ρ ↔ sat ⟨R, fc⟩ (F0.substSym (phTheta m)) ρ := by
+        rcases hFF with e | e
+        · rw [e]
+        · rw [e]; exact C07.portfolio_sound_classic .fixpoint fuel _ ⟨R, fc⟩ ρ
+      rw [h1]
+      exact sat_substSym_congr ⟨R, fc⟩ _ _ (fun s ρ' => phTheta_eval m fc s ρ') F0 ρ
+    rw [hsat, completion_defs_sem (p.substSym (phNu m fc)) t.userGuide.inputs
+      (by rw [globalsPanic_substSym]; exact hpP) _ hΓν _ (List.mem_map.mpr ⟨F0, hF0, rfl⟩) q
+      (by rw [headPredicate_substSym]; exact hq')]
+    exact hdef q (completion_preds _ _ hpP Γ hΓ _ hF0 q (headPredicate_mem_preds _ q hq')) hnq
+  · -- the empty definition of a missing output predicate has a public head
+    exfalso
+    obtain ⟨o, ho, hoF⟩ := List.mem_map.mp hin
+    have hq' : q = o := by
+      have : headPredicate a0.formula = some o := by
+        rcases hFF with e | e
+        · rw [e, ← hoF, headPredicate_completeDefinition, atomFromPred_predicate]
+        · rw [e, ← hoF, headPredicate_simplify_completeDefinition, atomFromPred_predicate]
+      rw [hq] at this
+      injection this
+    subst hq'
+    unfold missingOutputs at ho
+    simp only [List.mem_filter, decide_eq_true_eq] at ho
+    exact hnq (mem_ext.mpr (Or.inr ho.1))
+
 /-! ## the program-level statement -/
 
 theorem restrictTo_congr (sig : List Pred) (T1 T2 : PredI)
@@ -224,28 +432,62 @@ theorem specPrivate_programs (t : ExternalTask) (PL : Program) (hspec : t.specif
   unfold ExternalTask.specPrivate
   rw [hspec]
 
+/-- what makes an interpretation a difference witness for a program-vs-program task (the right-hand
+    side of `external_refutes_programs_ph`) -/
+def WitnessPrograms (t : ExternalTask) (PL : Program) (ΓL ΓR : Theory) (J : Interp) (ρ : Asg) : Prop :=
+  (∀ a ∈ t.userGuide.formulas, a.role = .assumption → sat J (a.formula.replacePlaceholders t.phMap) ρ) ∧
+  (((t.direction = .universal ∨ t.direction = .forward) ∧
+      (Stable (PL.substSym (phNu t.phMap J.fc)) t.userGuide.inputs
+        (restrictTo (ext PL.preds t.userGuide.inputs) J.pred) J.fc ∧ OutputsEmpty t PL J.pred) ∧
+      (∀ a ∈ rightSide t ΓR, a.role = .assumption → sat J a.formula ρ) ∧
+      ¬ (Stable (t.program.substSym (phNu t.phMap J.fc)) t.userGuide.inputs
+        (restrictTo (ext t.program.preds t.userGuide.inputs)
+          (renamedInterp t.clashMap J.pred)) J.fc ∧
+        OutputsEmpty t t.program (renamedInterp t.clashMap J.pred))) ∨
+   ((t.direction = .universal ∨ t.direction = .backward) ∧
+      (Stable (t.program.substSym (phNu t.phMap J.fc)) t.userGuide.inputs
+        (restrictTo (ext t.program.preds t.userGuide.inputs)
+          (renamedInterp t.clashMap J.pred)) J.fc ∧
+        OutputsEmpty t t.program (renamedInterp t.clashMap J.pred)) ∧
+      (∀ a ∈ leftSide t ΓL, a.role = .assumption → sat J a.formula ρ) ∧
+      ¬ (Stable (PL.substSym (phNu t.phMap J.fc)) t.userGuide.inputs
+        (restrictTo (ext PL.preds t.userGuide.inputs) J.pred) J.fc ∧ OutputsEmpty t PL J.pred)))
+
+/-- the same for a specification-vs-program task (the right-hand side of `external_refutes_spec_ph`) -/
+def WitnessSpec (t : ExternalTask) (S : Specification) (ΓR : Theory) (J : Interp) (ρ : Asg) : Prop :=
+  (∀ a ∈ t.userGuide.formulas, a.role = .assumption → sat J (a.formula.replacePlaceholders t.phMap) ρ) ∧
+  (∀ a ∈ S, lStable a = true → sat J (a.formula.replacePlaceholders t.phMap) ρ) ∧
+  (∀ a ∈ rightSide t ΓR, a.role = .assumption → sat J a.formula ρ) ∧
+  (((t.direction = .universal ∨ t.direction = .forward) ∧
+      (∀ a ∈ S, lFwdPrem a = true → sat J (a.formula.replacePlaceholders t.phMap) ρ) ∧
+      ¬ (Stable (t.program.substSym (phNu t.phMap J.fc)) t.userGuide.inputs
+        (restrictTo (ext t.program.preds t.userGuide.inputs)
+          (renamedInterp t.clashMap J.pred)) J.fc ∧
+        OutputsEmpty t t.program (renamedInterp t.clashMap J.pred))) ∨
+   ((t.direction = .universal ∨ t.direction = .backward) ∧
+      (Stable (t.program.substSym (phNu t.phMap J.fc)) t.userGuide.inputs
+        (restrictTo (ext t.program.preds t.userGuide.inputs)
+          (renamedInterp t.clashMap J.pred)) J.fc ∧
+        OutputsEmpty t t.program (renamedInterp t.clashMap J.pred)) ∧
+      ∃ a ∈ S, lBwdConc a = true ∧ ¬ sat J (a.formula.replacePlaceholders t.phMap) ρ))
+
 /-- **C02 at the level of the programs, forward direction** (program against program, no
-    placeholders, no proof outline, tightness not bypassed, simplification off; any decomposition and
+    placeholders, no proof outline, tightness not bypassed; any simplification, decomposition and
     eq-break setting). If no interpretation refutes an emitted problem - in particular if every
     emitted problem is a theorem - then every stable model `TL` of the specification program, for
     input facts and constants that satisfy the user-guide assumptions, has the same public part as
     some stable model of the program. -/
-theorem external_forward_sound_programs (t : ExternalTask) (PL : Program)
-    (hspec : t.specification = .inl PL) (hph : t.userGuide.placeholders = []) (hpo : t.proofOutline = [])
-    (hbyp : t.bypassTightness = false) (hsimp : t.simplify = false)
-    (fuel : Nat) (ps : List Problem) (h : externalProblems t fuel = .ok ps)
+theorem external_forward_sound_programs_core (t : ExternalTask) (PL : Program)
+    (hspec : t.specification = .inl PL) (hbyp : t.bypassTightness = false) (hpre : precheck t = none)
+    (fuel : Nat) (ΓL ΓR : Theory) (hL : theoryTranslate t t.phMap fuel PL = .ok ΓL)
+    (hR : theoryTranslate t t.phMap fuel t.program = .ok ΓR)
     (hdir : t.direction = .universal ∨ t.direction = .forward)
-    (hnc : ∀ ΓL ΓR, theoryTranslate t t.phMap fuel PL = .ok ΓL → theoryTranslate t t.phMap fuel t.program = .ok ΓR →
-      NoSymbolConflictGen (assembledGen t (leftSide t ΓL) t.ugAss ΓR))
-    (hvalid : ∀ (J : Interp) (ρ : Asg), ¬ ∃ P ∈ ps, Refutes J ρ P) :
+    (hsound : ∀ (J : Interp) (ρ : Asg), ¬ WitnessPrograms t PL ΓL ΓR J ρ) :
     ∀ (TL : PredI) (fc : FcI) (ρ : Asg),
-      (∀ a ∈ t.userGuide.formulas, a.role = .assumption → sat ⟨TL, fc⟩ a.formula ρ) →
-      Stable PL t.userGuide.inputs TL fc →
-      ∃ TR : PredI, Stable t.program t.userGuide.inputs TR fc ∧
+      (∀ a ∈ t.userGuide.formulas, a.role = .assumption → sat ⟨TL, fc⟩ (a.formula.replacePlaceholders t.phMap) ρ) →
+      Stable (PL.substSym (phNu t.phMap fc)) t.userGuide.inputs TL fc →
+      ∃ TR : PredI, Stable (t.program.substSym (phNu t.phMap fc)) t.userGuide.inputs TR fc ∧
         ∀ (q : String) (ds : List Dom), (⟨q, ds.length⟩ : Pred) ∈ t.userGuide.publicPreds → (TR q ds ↔ TL q ds) := by
-  obtain ⟨ΓL, ΓR, hL, hR, hmain⟩ := external_refutes_programs_ph t PL hspec hpo hbyp fuel ps h
-  have hpre : precheck t = none := (externalProblems_ph t hpo fuel ps h).1
-  have hm : t.phMap = [] := phMap_nil t hph
   obtain ⟨hperrR, hperrL⟩ := precheck_programs t PL hspec hpre
   obtain ⟨_, hrecR, hinsR⟩ := C11.programError_none hperrR
   have hdisj := precheck_disjoint t hpre
@@ -277,28 +519,25 @@ theorem external_forward_sound_programs (t : ExternalTask) (PL : Program)
     simp only [List.mem_filter, decide_eq_true_eq] at hp
     exact hp.2 hq
   -- private extents of the program for the public part of `TL`, and one interpretation for both
-  obtain ⟨TR0, hTR0agree, hTR0def⟩ := private_extents_exist t.program t.progPrivate hrecR TL fc
+  obtain ⟨TR0, hTR0agree, hTR0def⟩ := private_extents_exist (t.program.substSym (phNu t.phMap fc)) t.progPrivate
+    (by rw [hasPrivateRecursion_substSym]; exact hrecR) TL fc
   obtain ⟨T, hTL, hTR⟩ := joint_reading t TL TR0 (fun q a hq => (hTR0agree q a (hpubpriv _ hq)).symm)
-  have hiff := hmain (hnc ΓL ΓR hL hR) ⟨T, fc⟩ ρ
-  rw [hm] at hiff hR
-  simp only [phNu_nil, Program.substSym_id, replacePlaceholders_nil] at hiff
   -- (i) the user-guide assumptions
-  have hugT : ∀ a ∈ t.userGuide.formulas, a.role = .assumption → sat ⟨T, fc⟩ a.formula ρ := by
+  have hugT : ∀ a ∈ t.userGuide.formulas, a.role = .assumption → sat ⟨T, fc⟩ (a.formula.replacePlaceholders t.phMap) ρ := by
     intro a ha hrole
-    refine (sat_congr_preds fc T TL a.formula ρ ?_).mpr (hug a ha hrole)
+    refine (sat_congr_preds fc T TL _ ρ ?_).mpr (hug a ha hrole)
     intro q hq ds hds
     have hqi : q ∈ t.userGuide.inputs := by
       have hmem : a.replacePlaceholders t.phMap ∈ t.ugAss := by
         unfold ExternalTask.ugAss
         exact List.mem_map.mpr ⟨a, List.mem_filter.mpr ⟨ha, by simpa using hrole⟩, rfl⟩
-      refine Outline.ugAss_preds t hpre _ hmem q ?_
-      rw [hm]
-      simp only [SAnn.replacePlaceholders, replacePlaceholders_nil]
-      exact hq
+      exact Outline.ugAss_preds t hpre _ hmem q hq
     have : (⟨q.symbol, ds.length⟩ : Pred) = q := by rw [hds]
     exact hTL q.symbol ds (by rw [this]; exact mem_ext.mpr (Or.inl (hinpub q hqi)))
   -- (ii) the specification program produces `T`
-  have hsigL := stable_sig PL t.userGuide.inputs TL fc hstL
+  have hsigL : ∀ q ds, TL q ds → (⟨q, ds.length⟩ : Pred) ∈ ext PL.preds t.userGuide.inputs := by
+    have := stable_sig _ t.userGuide.inputs TL fc hstL
+    rwa [Program.preds_substSym] at this
   have hrestrL : restrictTo (ext PL.preds t.userGuide.inputs) T = TL := by
     rw [restrictTo_congr _ T TL fun q ds hq => hTL q ds (hvocL _ hq)]
     funext q ds
@@ -316,42 +555,28 @@ theorem external_forward_sound_programs (t : ExternalTask) (PL : Program)
     · exact hq.2 h1
     · exact hdisj q h1 hq.1
   -- (iv) the private definitions of the program hold
-  obtain ⟨Γ, hΓ, hΓR⟩ := theoryTranslate_nosimp t fuel t.program ΓR hsimp hR
-  have hpP : globalsPanic t.program = false := (theoryTranslate_ok t fuel t.program ΓR hR).1
+  have hdefR : ∀ q ∈ t.program.preds, q ∉ t.userGuide.publicPreds →
+      DefHolds (t.program.substSym (phNu t.phMap fc)) (renamedInterp t.clashMap T) fc q.symbol q.arity := by
+    intro q hqP hnq
+    have hpriv : q ∈ t.progPrivate := by
+      unfold ExternalTask.progPrivate
+      exact List.mem_filter.mpr ⟨hqP, by simpa using hnq⟩
+    refine (defHolds_congr _ _ TR0 fc q (by rw [Program.preds_substSym]; exact hqP) ?_).mpr (hTR0def q hpriv)
+    intro b hb ds hds
+    rw [Program.preds_substSym] at hb
+    have hb' : (⟨b.symbol, ds.length⟩ : Pred) = b := by rw [hds]
+    exact hTR b.symbol ds (by rw [hb']; exact hvocR b (mem_ext.mpr (Or.inl hb)))
   have hright : ∀ a ∈ rightSide t ΓR, a.role = .assumption → sat ⟨T, fc⟩ a.formula ρ := by
     intro a ha hrole
     unfold rightSide at ha
     obtain ⟨a0, ha0, rfl⟩ := List.mem_map.mp ha
     simp only at hrole ⊢
-    unfold controlTranslate at ha0
-    rcases controlTranslate_roles t.userGuide.publicPreds ΓR ([], 0) a0 ha0 with hnil | ⟨hmemΓR, hroleinfo⟩
-    · cases hnil
-    obtain ⟨p, hp, hnp⟩ := hroleinfo hrole
     rw [sat_renamePreds]
-    rw [hΓR] at hmemΓR
-    rcases List.mem_append.mp hmemΓR with hin | hin
-    · have hpP' : p ∈ t.program.preds :=
-        completion_preds _ _ hpP Γ hΓ _ hin p (headPredicate_mem_preds _ p hp)
-      rw [completion_defs_sem t.program t.userGuide.inputs hpP Γ hΓ _ hin p hp]
-      have hpriv : p ∈ t.progPrivate := by
-        unfold ExternalTask.progPrivate
-        exact List.mem_filter.mpr ⟨hpP', by simpa using hnp⟩
-      refine (defHolds_congr t.program _ TR0 fc p hpP' ?_).mpr (hTR0def p hpriv)
-      intro b hb ds hds
-      have hb' : (⟨b.symbol, ds.length⟩ : Pred) = b := by rw [hds]
-      exact hTR b.symbol ds (by rw [hb']; exact hvocR b (mem_ext.mpr (Or.inl hb)))
-    · exfalso
-      obtain ⟨q, hq, hqF⟩ := List.mem_map.mp hin
-      rw [← hqF, headPredicate_completeDefinition, atomFromPred_predicate] at hp
-      injection hp with hp
-      subst hp
-      unfold missingOutputs at hq
-      simp only [List.mem_filter, decide_eq_true_eq] at hq
-      exact hnp (houtpub q hq.1)
+    exact side_assumptions_hold t t.phMap fuel t.program ΓR hR _ fc ρ hdefR a0 ha0 hrole
   -- (v) not refuted, hence produced by the program
-  have hnot := hvalid ⟨T, fc⟩ ρ
-  rw [hiff] at hnot
-  by_cases hPR : Stable t.program t.userGuide.inputs
+  have hnot := hsound ⟨T, fc⟩ ρ
+  unfold WitnessPrograms at hnot
+  by_cases hPR : Stable (t.program.substSym (phNu t.phMap fc)) t.userGuide.inputs
       (restrictTo (ext t.program.preds t.userGuide.inputs) (renamedInterp t.clashMap T)) fc ∧
       OutputsEmpty t t.program (renamedInterp t.clashMap T)
   · refine ⟨_, hPR.1, ?_⟩
@@ -386,22 +611,17 @@ theorem external_forward_sound_programs (t : ExternalTask) (PL : Program)
     interpretation refutes an emitted problem then every stable model `TR` of the program, for input
     facts and constants that satisfy the user-guide assumptions, has the same public part as some
     stable model of the specification program. -/
-theorem external_backward_sound_programs (t : ExternalTask) (PL : Program)
-    (hspec : t.specification = .inl PL) (hph : t.userGuide.placeholders = []) (hpo : t.proofOutline = [])
-    (hbyp : t.bypassTightness = false) (hsimp : t.simplify = false)
-    (fuel : Nat) (ps : List Problem) (h : externalProblems t fuel = .ok ps)
+theorem external_backward_sound_programs_core (t : ExternalTask) (PL : Program)
+    (hspec : t.specification = .inl PL) (hbyp : t.bypassTightness = false) (hpre : precheck t = none)
+    (fuel : Nat) (ΓL ΓR : Theory) (hL : theoryTranslate t t.phMap fuel PL = .ok ΓL)
+    (hR : theoryTranslate t t.phMap fuel t.program = .ok ΓR)
     (hdir : t.direction = .universal ∨ t.direction = .backward)
-    (hnc : ∀ ΓL ΓR, theoryTranslate t t.phMap fuel PL = .ok ΓL → theoryTranslate t t.phMap fuel t.program = .ok ΓR →
-      NoSymbolConflictGen (assembledGen t (leftSide t ΓL) t.ugAss ΓR))
-    (hvalid : ∀ (J : Interp) (ρ : Asg), ¬ ∃ P ∈ ps, Refutes J ρ P) :
+    (hsound : ∀ (J : Interp) (ρ : Asg), ¬ WitnessPrograms t PL ΓL ΓR J ρ) :
     ∀ (TR : PredI) (fc : FcI) (ρ : Asg),
-      (∀ a ∈ t.userGuide.formulas, a.role = .assumption → sat ⟨TR, fc⟩ a.formula ρ) →
-      Stable t.program t.userGuide.inputs TR fc →
-      ∃ TL : PredI, Stable PL t.userGuide.inputs TL fc ∧
+      (∀ a ∈ t.userGuide.formulas, a.role = .assumption → sat ⟨TR, fc⟩ (a.formula.replacePlaceholders t.phMap) ρ) →
+      Stable (t.program.substSym (phNu t.phMap fc)) t.userGuide.inputs TR fc →
+      ∃ TL : PredI, Stable (PL.substSym (phNu t.phMap fc)) t.userGuide.inputs TL fc ∧
         ∀ (q : String) (ds : List Dom), (⟨q, ds.length⟩ : Pred) ∈ t.userGuide.publicPreds → (TL q ds ↔ TR q ds) := by
-  obtain ⟨ΓL, ΓR, hL, hR, hmain⟩ := external_refutes_programs_ph t PL hspec hpo hbyp fuel ps h
-  have hpre : precheck t = none := (externalProblems_ph t hpo fuel ps h).1
-  have hm : t.phMap = [] := phMap_nil t hph
   obtain ⟨hperrR, hperrL⟩ := precheck_programs t PL hspec hpre
   obtain ⟨_, hrecL, hinsL⟩ := C11.programError_none hperrL
   have hdisj := precheck_disjoint t hpre
@@ -432,32 +652,29 @@ theorem external_backward_sound_programs (t : ExternalTask) (PL : Program)
     simp only [List.mem_filter, decide_eq_true_eq] at hp
     exact hp.2 hq
   -- private extents of the specification program for the public part of `TR`
-  obtain ⟨TL0, hTL0agree, hTL0def⟩ := private_extents_exist PL t.specPrivate hrecL TR fc
+  obtain ⟨TL0, hTL0agree, hTL0def⟩ := private_extents_exist (PL.substSym (phNu t.phMap fc)) t.specPrivate
+    (by rw [hasPrivateRecursion_substSym]; exact hrecL) TR fc
   obtain ⟨T, hTL, hTR⟩ := joint_reading t TL0 TR (fun q a hq => hTL0agree q a (hpubpriv _ hq))
-  have hiff := hmain (hnc ΓL ΓR hL hR) ⟨T, fc⟩ ρ
-  rw [hm] at hiff hL
-  simp only [phNu_nil, Program.substSym_id, replacePlaceholders_nil] at hiff
   have hTpub : ∀ (q : String) (ds : List Dom), (⟨q, ds.length⟩ : Pred) ∈ t.userGuide.publicPreds → (T q ds ↔ TR q ds) := by
     intro q ds hq
     rw [hTL q ds (mem_ext.mpr (Or.inl hq))]
     exact hTL0agree q ds (hpubpriv _ hq)
   -- (i) the user-guide assumptions
-  have hugT : ∀ a ∈ t.userGuide.formulas, a.role = .assumption → sat ⟨T, fc⟩ a.formula ρ := by
+  have hugT : ∀ a ∈ t.userGuide.formulas, a.role = .assumption → sat ⟨T, fc⟩ (a.formula.replacePlaceholders t.phMap) ρ := by
     intro a ha hrole
-    refine (sat_congr_preds fc T TR a.formula ρ ?_).mpr (hug a ha hrole)
+    refine (sat_congr_preds fc T TR _ ρ ?_).mpr (hug a ha hrole)
     intro q hq ds hds
     have hqi : q ∈ t.userGuide.inputs := by
       have hmem : a.replacePlaceholders t.phMap ∈ t.ugAss := by
         unfold ExternalTask.ugAss
         exact List.mem_map.mpr ⟨a, List.mem_filter.mpr ⟨ha, by simpa using hrole⟩, rfl⟩
-      refine Outline.ugAss_preds t hpre _ hmem q ?_
-      rw [hm]
-      simp only [SAnn.replacePlaceholders, replacePlaceholders_nil]
-      exact hq
+      exact Outline.ugAss_preds t hpre _ hmem q hq
     have : (⟨q.symbol, ds.length⟩ : Pred) = q := by rw [hds]
     exact hTpub q.symbol ds (by rw [this]; exact hinpub q hqi)
   -- (ii) the program produces `T` (read through the renaming)
-  have hsigR := stable_sig t.program t.userGuide.inputs TR fc hstR
+  have hsigR : ∀ q ds, TR q ds → (⟨q, ds.length⟩ : Pred) ∈ ext t.program.preds t.userGuide.inputs := by
+    have := stable_sig _ t.userGuide.inputs TR fc hstR
+    rwa [Program.preds_substSym] at this
   have hrestrR : restrictTo (ext t.program.preds t.userGuide.inputs) (renamedInterp t.clashMap T) = TR := by
     rw [restrictTo_congr _ (renamedInterp t.clashMap T) TR fun q ds hq => hTR q ds (hvocR _ hq)]
     funext q ds
@@ -476,38 +693,25 @@ theorem external_backward_sound_programs (t : ExternalTask) (PL : Program)
     · exact hq.2 h1
     · exact hdisj q h1 hq.1
   -- (iv) the private definitions of the specification program hold
-  obtain ⟨Γ, hΓ, hΓL⟩ := theoryTranslate_nosimp t fuel PL ΓL hsimp hL
-  have hpP : globalsPanic PL = false := (theoryTranslate_ok t fuel PL ΓL hL).1
+  have hdefL : ∀ q ∈ PL.preds, q ∉ t.userGuide.publicPreds →
+      DefHolds (PL.substSym (phNu t.phMap fc)) T fc q.symbol q.arity := by
+    intro q hqP hnq
+    have hpriv : q ∈ t.specPrivate := by
+      rw [specPrivate_programs t PL hspec]
+      exact List.mem_filter.mpr ⟨hqP, by simpa using hnq⟩
+    refine (defHolds_congr _ _ TL0 fc q (by rw [Program.preds_substSym]; exact hqP) ?_).mpr (hTL0def q hpriv)
+    intro b hb ds hds
+    rw [Program.preds_substSym] at hb
+    have hb' : (⟨b.symbol, ds.length⟩ : Pred) = b := by rw [hds]
+    exact hTL b.symbol ds (by rw [hb']; exact hvocL b (mem_ext.mpr (Or.inl hb)))
   have hleft : ∀ a ∈ leftSide t ΓL, a.role = .assumption → sat ⟨T, fc⟩ a.formula ρ := by
     intro a0 ha0 hrole
-    unfold leftSide controlTranslate at ha0
-    rcases controlTranslate_roles t.userGuide.publicPreds ΓL ([], 0) a0 ha0 with hnil | ⟨hmemΓL, hroleinfo⟩
-    · cases hnil
-    obtain ⟨p, hp, hnp⟩ := hroleinfo hrole
-    rw [hΓL] at hmemΓL
-    rcases List.mem_append.mp hmemΓL with hin | hin
-    · have hpP' : p ∈ PL.preds :=
-        completion_preds _ _ hpP Γ hΓ _ hin p (headPredicate_mem_preds _ p hp)
-      rw [completion_defs_sem PL t.userGuide.inputs hpP Γ hΓ _ hin p hp]
-      have hpriv : p ∈ t.specPrivate := by
-        rw [specPrivate_programs t PL hspec]
-        exact List.mem_filter.mpr ⟨hpP', by simpa using hnp⟩
-      refine (defHolds_congr PL _ TL0 fc p hpP' ?_).mpr (hTL0def p hpriv)
-      intro b hb ds hds
-      have hb' : (⟨b.symbol, ds.length⟩ : Pred) = b := by rw [hds]
-      exact hTL b.symbol ds (by rw [hb']; exact hvocL b (mem_ext.mpr (Or.inl hb)))
-    · exfalso
-      obtain ⟨q, hq, hqF⟩ := List.mem_map.mp hin
-      rw [← hqF, headPredicate_completeDefinition, atomFromPred_predicate] at hp
-      injection hp with hp
-      subst hp
-      unfold missingOutputs at hq
-      simp only [List.mem_filter, decide_eq_true_eq] at hq
-      exact hnp (houtpub q hq.1)
+    unfold leftSide at ha0
+    exact side_assumptions_hold t t.phMap fuel PL ΓL hL _ fc ρ hdefL a0 ha0 hrole
   -- (v) not refuted, hence produced by the specification program
-  have hnot := hvalid ⟨T, fc⟩ ρ
-  rw [hiff] at hnot
-  by_cases hPL : Stable PL t.userGuide.inputs (restrictTo (ext PL.preds t.userGuide.inputs) T) fc ∧
+  have hnot := hsound ⟨T, fc⟩ ρ
+  unfold WitnessPrograms at hnot
+  by_cases hPL : Stable (PL.substSym (phNu t.phMap fc)) t.userGuide.inputs (restrictTo (ext PL.preds t.userGuide.inputs) T) fc ∧
       OutputsEmpty t PL T
   · refine ⟨_, hPL.1, ?_⟩
     intro q ds hq
@@ -534,5 +738,462 @@ theorem external_backward_sound_programs (t : ExternalTask) (PL : Program)
     refine ⟨hugT, Or.inr ⟨hdir, ⟨?_, hoeR⟩, hleft, hPL⟩⟩
     rw [hrestrR]
     exact hstR
+
+/-! ## specification against program -/
+
+theorem specPrivate_spec (t : ExternalTask) (S : Specification) (hspec : t.specification = .inr S) :
+    t.specPrivate = (specPreds S).filter (· ∉ t.userGuide.publicPreds) := by
+  unfold ExternalTask.specPrivate
+  rw [hspec]
+
+theorem spec_vocabulary (t : ExternalTask) (S : Specification) (hspec : t.specification = .inr S) :
+    ∀ a ∈ S, ∀ q ∈ a.formula.preds, q ∈ ext t.userGuide.publicPreds t.specPrivate := by
+  intro a ha q hq
+  by_cases hp : q ∈ t.userGuide.publicPreds
+  · exact mem_ext.mpr (Or.inl hp)
+  · refine mem_ext.mpr (Or.inr ?_)
+    rw [specPrivate_spec t S hspec]
+    refine List.mem_filter.mpr ⟨?_, by simpa using hp⟩
+    unfold specPreds
+    exact (mem_foldl_ext (fun a : SAnn => a.preds) S [] q).mpr (Or.inr ⟨a, ha, hq⟩)
+
+/-- **C02 at the level of specification and program, backward direction** (no placeholders, no proof
+    outline, tightness not bypassed; simplification, decomposition and eq-break arbitrary). If no
+    interpretation refutes an emitted problem, then every stable model `TR` of the program, together with
+    any extents `TL` for the specification's vocabulary that agree with it on the public predicates and
+    satisfy the user-guide assumptions and the specification's universal assumptions, satisfies every
+    universal or backward `spec` formula of the specification. -/
+theorem external_backward_sound_specification_core (t : ExternalTask) (S : Specification)
+    (hspec : t.specification = .inr S) (hbyp : t.bypassTightness = false) (hpre : precheck t = none)
+    (fuel : Nat) (ΓR : Theory) (hR : theoryTranslate t t.phMap fuel t.program = .ok ΓR)
+    (hdir : t.direction = .universal ∨ t.direction = .backward)
+    (hsound : ∀ (J : Interp) (ρ : Asg), ¬ WitnessSpec t S ΓR J ρ) :
+    ∀ (TL TR : PredI) (fc : FcI) (ρ : Asg),
+      (∀ (q : String) (ds : List Dom), (⟨q, ds.length⟩ : Pred) ∈ t.userGuide.publicPreds → (TL q ds ↔ TR q ds)) →
+      Stable (t.program.substSym (phNu t.phMap fc)) t.userGuide.inputs TR fc →
+      (∀ a ∈ t.userGuide.formulas, a.role = .assumption → sat ⟨TL, fc⟩ (a.formula.replacePlaceholders t.phMap) ρ) →
+      (∀ a ∈ S, lStable a = true → sat ⟨TL, fc⟩ (a.formula.replacePlaceholders t.phMap) ρ) →
+      ∀ a ∈ S, lBwdConc a = true → sat ⟨TL, fc⟩ (a.formula.replacePlaceholders t.phMap) ρ := by
+  have hdisj := precheck_disjoint t hpre
+  intro TL TR fc ρ hagree hstR hug hstab a0 ha0 hconc
+  have hinpub : ∀ q ∈ t.userGuide.inputs, q ∈ t.userGuide.publicPreds := fun q hq => mem_ext.mpr (Or.inl hq)
+  have houtpub : ∀ q ∈ t.userGuide.outputs, q ∈ t.userGuide.publicPreds := fun q hq => mem_ext.mpr (Or.inr hq)
+  have hvocR : ∀ q ∈ ext t.program.preds t.userGuide.inputs, q ∈ ext t.userGuide.publicPreds t.progPrivate := by
+    intro q hq
+    rcases mem_ext.mp hq with hq | hq
+    · by_cases hp : q ∈ t.userGuide.publicPreds
+      · exact mem_ext.mpr (Or.inl hp)
+      · refine mem_ext.mpr (Or.inr ?_)
+        unfold ExternalTask.progPrivate
+        exact List.mem_filter.mpr ⟨hq, by simpa using hp⟩
+    · exact mem_ext.mpr (Or.inl (hinpub q hq))
+  obtain ⟨T, hTL, hTR⟩ := joint_reading t TL TR hagree
+  have hSsat : ∀ a ∈ S, (sat ⟨T, fc⟩ (a.formula.replacePlaceholders t.phMap) ρ ↔
+      sat ⟨TL, fc⟩ (a.formula.replacePlaceholders t.phMap) ρ) := by
+    intro a ha
+    refine sat_congr_preds fc T TL _ ρ ?_
+    intro q hq ds hds
+    simp only [Formula.replacePlaceholders_eq, Formula.preds_substSym] at hq
+    have : (⟨q.symbol, ds.length⟩ : Pred) = q := by rw [hds]
+    exact hTL q.symbol ds (by rw [this]; exact spec_vocabulary t S hspec a ha q hq)
+  have hugT : ∀ a ∈ t.userGuide.formulas, a.role = .assumption → sat ⟨T, fc⟩ (a.formula.replacePlaceholders t.phMap) ρ := by
+    intro a ha hrole
+    refine (sat_congr_preds fc T TL _ ρ ?_).mpr (hug a ha hrole)
+    intro q hq ds hds
+    have hqi : q ∈ t.userGuide.inputs := by
+      have hmem : a.replacePlaceholders t.phMap ∈ t.ugAss := by
+        unfold ExternalTask.ugAss
+        exact List.mem_map.mpr ⟨a, List.mem_filter.mpr ⟨ha, by simpa using hrole⟩, rfl⟩
+      exact Outline.ugAss_preds t hpre _ hmem q hq
+    have : (⟨q.symbol, ds.length⟩ : Pred) = q := by rw [hds]
+    exact hTL q.symbol ds (by rw [this]; exact mem_ext.mpr (Or.inl (hinpub q hqi)))
+  -- the program produces `T` (read through the renaming)
+  have hsigR : ∀ q ds, TR q ds → (⟨q, ds.length⟩ : Pred) ∈ ext t.program.preds t.userGuide.inputs := by
+    have := stable_sig _ t.userGuide.inputs TR fc hstR
+    rwa [Program.preds_substSym] at this
+  have hrestrR : restrictTo (ext t.program.preds t.userGuide.inputs) (renamedInterp t.clashMap T) = TR := by
+    rw [restrictTo_congr _ (renamedInterp t.clashMap T) TR fun q ds hq => hTR q ds (hvocR _ hq)]
+    funext q ds
+    unfold restrictTo
+    exact propext ⟨fun hh => hh.1, fun hh => ⟨hh, hsigR q ds hh⟩⟩
+  have hoeR : OutputsEmpty t t.program (renamedInterp t.clashMap T) := by
+    intro q hq ds hds hT
+    unfold missingOutputs at hq
+    simp only [List.mem_filter, decide_eq_true_eq] at hq
+    have hq' : (⟨q.symbol, ds.length⟩ : Pred) = q := by rw [hds]
+    have hTRq : TR q.symbol ds :=
+      (hTR q.symbol ds (by rw [hq']; exact mem_ext.mpr (Or.inl (houtpub q hq.1)))).mp hT
+    have := hsigR q.symbol ds hTRq
+    rw [hq'] at this
+    rcases mem_ext.mp this with h1 | h1
+    · exact hq.2 h1
+    · exact hdisj q h1 hq.1
+  have hPR : Stable (t.program.substSym (phNu t.phMap fc)) t.userGuide.inputs
+      (restrictTo (ext t.program.preds t.userGuide.inputs) (renamedInterp t.clashMap T)) fc ∧
+      OutputsEmpty t t.program (renamedInterp t.clashMap T) := ⟨by rw [hrestrR]; exact hstR, hoeR⟩
+  -- every formula of the program side holds, in particular its assumptions
+  have hall := (rightSide_stable_ph t hbyp hpre fuel ΓR hR ⟨T, fc⟩ ρ).mpr hPR
+  have hnot := hsound ⟨T, fc⟩ ρ
+  unfold WitnessSpec at hnot
+  refine (hSsat a0 ha0).mp ?_
+  refine Classical.byContradiction fun hns => hnot ?_
+  refine ⟨hugT, fun a ha hs => (hSsat a ha).mpr (hstab a ha hs), fun a ha _ => hall a ha,
+    Or.inr ⟨hdir, hPR, a0, ha0, hconc, hns⟩⟩
+
+/-- **C02 at the level of specification and program, forward direction** (no placeholders, no proof
+    outline, tightness not bypassed; simplification on or off). If no interpretation refutes an emitted problem,
+    then for every family of extents `TL` (of the input, output and specification-private predicates) that
+    satisfies the user-guide assumptions, the specification's assumptions and its universal or forward
+    `spec` formulas, the program has a stable model with the same public part. -/
+theorem external_forward_sound_specification_core (t : ExternalTask) (S : Specification)
+    (hspec : t.specification = .inr S) (hbyp : t.bypassTightness = false) (hpre : precheck t = none)
+    (fuel : Nat) (ΓR : Theory) (hR : theoryTranslate t t.phMap fuel t.program = .ok ΓR)
+    (hdir : t.direction = .universal ∨ t.direction = .forward)
+    (hsound : ∀ (J : Interp) (ρ : Asg), ¬ WitnessSpec t S ΓR J ρ) :
+    ∀ (TL : PredI) (fc : FcI) (ρ : Asg),
+      (∀ a ∈ t.userGuide.formulas, a.role = .assumption → sat ⟨TL, fc⟩ (a.formula.replacePlaceholders t.phMap) ρ) →
+      (∀ a ∈ S, lStable a = true → sat ⟨TL, fc⟩ (a.formula.replacePlaceholders t.phMap) ρ) →
+      (∀ a ∈ S, lFwdPrem a = true → sat ⟨TL, fc⟩ (a.formula.replacePlaceholders t.phMap) ρ) →
+      ∃ TR : PredI, Stable (t.program.substSym (phNu t.phMap fc)) t.userGuide.inputs TR fc ∧
+        ∀ (q : String) (ds : List Dom), (⟨q, ds.length⟩ : Pred) ∈ t.userGuide.publicPreds → (TR q ds ↔ TL q ds) := by
+  have hperrR : programError t t.program t.progPrivate = none := by
+    cases hP : programError t t.program t.progPrivate with
+    | none => rfl
+    | some e =>
+      exfalso
+      have hpre' := hpre
+      unfold precheck at hpre'
+      simp only [hP] at hpre'
+      split at hpre'
+      · cases hpre'
+      · split at hpre' <;> cases hpre'
+  obtain ⟨_, hrecR, hinsR⟩ := C11.programError_none hperrR
+  intro TL fc ρ hug hstab hprem
+  have hinpub : ∀ q ∈ t.userGuide.inputs, q ∈ t.userGuide.publicPreds := fun q hq => mem_ext.mpr (Or.inl hq)
+  have houtpub : ∀ q ∈ t.userGuide.outputs, q ∈ t.userGuide.publicPreds := fun q hq => mem_ext.mpr (Or.inr hq)
+  have hvocR : ∀ q ∈ ext t.program.preds t.userGuide.inputs, q ∈ ext t.userGuide.publicPreds t.progPrivate := by
+    intro q hq
+    rcases mem_ext.mp hq with hq | hq
+    · by_cases hp : q ∈ t.userGuide.publicPreds
+      · exact mem_ext.mpr (Or.inl hp)
+      · refine mem_ext.mpr (Or.inr ?_)
+        unfold ExternalTask.progPrivate
+        exact List.mem_filter.mpr ⟨hq, by simpa using hp⟩
+    · exact mem_ext.mpr (Or.inl (hinpub q hq))
+  have hpubpriv : ∀ q, q ∈ t.userGuide.publicPreds → q ∉ t.progPrivate := by
+    intro q hq hp
+    unfold ExternalTask.progPrivate at hp
+    simp only [List.mem_filter, decide_eq_true_eq] at hp
+    exact hp.2 hq
+  obtain ⟨TR0, hTR0agree, hTR0def⟩ := private_extents_exist (t.program.substSym (phNu t.phMap fc)) t.progPrivate
+    (by rw [hasPrivateRecursion_substSym]; exact hrecR) TL fc
+  obtain ⟨T, hTL, hTR⟩ := joint_reading t TL TR0 (fun q a hq => (hTR0agree q a (hpubpriv _ hq)).symm)
+  have hSsat : ∀ a ∈ S, (sat ⟨T, fc⟩ (a.formula.replacePlaceholders t.phMap) ρ ↔
+      sat ⟨TL, fc⟩ (a.formula.replacePlaceholders t.phMap) ρ) := by
+    intro a ha
+    refine sat_congr_preds fc T TL _ ρ ?_
+    intro q hq ds hds
+    simp only [Formula.replacePlaceholders_eq, Formula.preds_substSym] at hq
+    have : (⟨q.symbol, ds.length⟩ : Pred) = q := by rw [hds]
+    exact hTL q.symbol ds (by rw [this]; exact spec_vocabulary t S hspec a ha q hq)
+  have hugT : ∀ a ∈ t.userGuide.formulas, a.role = .assumption → sat ⟨T, fc⟩ (a.formula.replacePlaceholders t.phMap) ρ := by
+    intro a ha hrole
+    refine (sat_congr_preds fc T TL _ ρ ?_).mpr (hug a ha hrole)
+    intro q hq ds hds
+    have hqi : q ∈ t.userGuide.inputs := by
+      have hmem : a.replacePlaceholders t.phMap ∈ t.ugAss := by
+        unfold ExternalTask.ugAss
+        exact List.mem_map.mpr ⟨a, List.mem_filter.mpr ⟨ha, by simpa using hrole⟩, rfl⟩
+      exact Outline.ugAss_preds t hpre _ hmem q hq
+    have : (⟨q.symbol, ds.length⟩ : Pred) = q := by rw [hds]
+    exact hTL q.symbol ds (by rw [this]; exact mem_ext.mpr (Or.inl (hinpub q hqi)))
+  -- the private definitions of the program hold
+  have hdefR : ∀ q ∈ t.program.preds, q ∉ t.userGuide.publicPreds →
+      DefHolds (t.program.substSym (phNu t.phMap fc)) (renamedInterp t.clashMap T) fc q.symbol q.arity := by
+    intro q hqP hnq
+    have hpriv : q ∈ t.progPrivate := by
+      unfold ExternalTask.progPrivate
+      exact List.mem_filter.mpr ⟨hqP, by simpa using hnq⟩
+    refine (defHolds_congr _ _ TR0 fc q (by rw [Program.preds_substSym]; exact hqP) ?_).mpr (hTR0def q hpriv)
+    intro b hb ds hds
+    rw [Program.preds_substSym] at hb
+    have hb' : (⟨b.symbol, ds.length⟩ : Pred) = b := by rw [hds]
+    exact hTR b.symbol ds (by rw [hb']; exact hvocR b (mem_ext.mpr (Or.inl hb)))
+  have hright : ∀ a ∈ rightSide t ΓR, a.role = .assumption → sat ⟨T, fc⟩ a.formula ρ := by
+    intro a ha hrole
+    unfold rightSide at ha
+    obtain ⟨a0, ha0, rfl⟩ := List.mem_map.mp ha
+    simp only at hrole ⊢
+    rw [sat_renamePreds]
+    exact side_assumptions_hold t t.phMap fuel t.program ΓR hR _ fc ρ hdefR a0 ha0 hrole
+  have hnot := hsound ⟨T, fc⟩ ρ
+  unfold WitnessSpec at hnot
+  by_cases hPR : Stable (t.program.substSym (phNu t.phMap fc)) t.userGuide.inputs
+      (restrictTo (ext t.program.preds t.userGuide.inputs) (renamedInterp t.clashMap T)) fc ∧
+      OutputsEmpty t t.program (renamedInterp t.clashMap T)
+  · refine ⟨_, hPR.1, ?_⟩
+    intro q ds hq
+    have hnpriv := hpubpriv _ hq
+    by_cases hin : (⟨q, ds.length⟩ : Pred) ∈ ext t.program.preds t.userGuide.inputs
+    · unfold restrictTo
+      rw [and_iff_left hin, hTR q ds (mem_ext.mpr (Or.inl hq))]
+      exact hTR0agree q ds hnpriv
+    · unfold restrictTo
+      constructor
+      · intro hh; exact absurd hh.2 hin
+      · intro hTLq
+        exfalso
+        have hout : (⟨q, ds.length⟩ : Pred) ∈ t.userGuide.outputs := by
+          rcases mem_ext.mp hq with h1 | h1
+          · exact absurd (mem_ext.mpr (Or.inr h1)) hin
+          · exact h1
+        have hmiss : (⟨q, ds.length⟩ : Pred) ∈ missingOutputs t t.program := by
+          unfold missingOutputs
+          exact List.mem_filter.mpr ⟨hout, by simpa using fun hp => hin (mem_ext.mpr (Or.inl hp))⟩
+        apply hPR.2 _ hmiss ds rfl
+        exact (hTR q ds (mem_ext.mpr (Or.inl hq))).mpr ((hTR0agree q ds hnpriv).mpr hTLq)
+  · exfalso
+    apply hnot
+    exact ⟨hugT, fun a ha hs => (hSsat a ha).mpr (hstab a ha hs), hright,
+      Or.inl ⟨hdir, fun a ha hs => (hSsat a ha).mpr (hprem a ha hs), hPR⟩⟩
+
+theorem external_forward_sound_programs (t : ExternalTask) (PL : Program)
+    (hspec : t.specification = .inl PL) (hpo : t.proofOutline = [])
+    (hbyp : t.bypassTightness = false)
+    (fuel : Nat) (ps : List Problem) (h : externalProblems t fuel = .ok ps)
+    (hdir : t.direction = .universal ∨ t.direction = .forward)
+    (hnc : ∀ ΓL ΓR, theoryTranslate t t.phMap fuel PL = .ok ΓL → theoryTranslate t t.phMap fuel t.program = .ok ΓR →
+      NoSymbolConflictGen (assembledGen t (leftSide t ΓL) t.ugAss ΓR))
+    (hvalid : ∀ (J : Interp) (ρ : Asg), ¬ ∃ P ∈ ps, Refutes J ρ P) :
+    ∀ (TL : PredI) (fc : FcI) (ρ : Asg),
+      (∀ a ∈ t.userGuide.formulas, a.role = .assumption → sat ⟨TL, fc⟩ (a.formula.replacePlaceholders t.phMap) ρ) →
+      Stable (PL.substSym (phNu t.phMap fc)) t.userGuide.inputs TL fc →
+      ∃ TR : PredI, Stable (t.program.substSym (phNu t.phMap fc)) t.userGuide.inputs TR fc ∧
+        ∀ (q : String) (ds : List Dom), (⟨q, ds.length⟩ : Pred) ∈ t.userGuide.publicPreds → (TR q ds ↔ TL q ds) := by
+  obtain ⟨ΓL, ΓR, hL, hR, hmain⟩ := external_refutes_programs_ph t PL hspec hpo hbyp fuel ps h
+  have hpre : precheck t = none := (externalProblems_ph t hpo fuel ps h).1
+  exact external_forward_sound_programs_core t PL hspec hbyp hpre fuel ΓL ΓR hL hR hdir
+    (fun J ρ hw => hvalid J ρ ((hmain (hnc ΓL ΓR hL hR) J ρ).mpr hw))
+
+theorem external_backward_sound_programs (t : ExternalTask) (PL : Program)
+    (hspec : t.specification = .inl PL) (hpo : t.proofOutline = [])
+    (hbyp : t.bypassTightness = false)
+    (fuel : Nat) (ps : List Problem) (h : externalProblems t fuel = .ok ps)
+    (hdir : t.direction = .universal ∨ t.direction = .backward)
+    (hnc : ∀ ΓL ΓR, theoryTranslate t t.phMap fuel PL = .ok ΓL → theoryTranslate t t.phMap fuel t.program = .ok ΓR →
+      NoSymbolConflictGen (assembledGen t (leftSide t ΓL) t.ugAss ΓR))
+    (hvalid : ∀ (J : Interp) (ρ : Asg), ¬ ∃ P ∈ ps, Refutes J ρ P) :
+    ∀ (TR : PredI) (fc : FcI) (ρ : Asg),
+      (∀ a ∈ t.userGuide.formulas, a.role = .assumption → sat ⟨TR, fc⟩ (a.formula.replacePlaceholders t.phMap) ρ) →
+      Stable (t.program.substSym (phNu t.phMap fc)) t.userGuide.inputs TR fc →
+      ∃ TL : PredI, Stable (PL.substSym (phNu t.phMap fc)) t.userGuide.inputs TL fc ∧
+        ∀ (q : String) (ds : List Dom), (⟨q, ds.length⟩ : Pred) ∈ t.userGuide.publicPreds → (TL q ds ↔ TR q ds) := by
+  obtain ⟨ΓL, ΓR, hL, hR, hmain⟩ := external_refutes_programs_ph t PL hspec hpo hbyp fuel ps h
+  have hpre : precheck t = none := (externalProblems_ph t hpo fuel ps h).1
+  exact external_backward_sound_programs_core t PL hspec hbyp hpre fuel ΓL ΓR hL hR hdir
+    (fun J ρ hw => hvalid J ρ ((hmain (hnc ΓL ΓR hL hR) J ρ).mpr hw))
+
+theorem external_backward_sound_specification (t : ExternalTask) (S : Specification)
+    (hspec : t.specification = .inr S) (hpo : t.proofOutline = [])
+    (hbyp : t.bypassTightness = false)
+    (fuel : Nat) (ps : List Problem) (h : externalProblems t fuel = .ok ps)
+    (hdir : t.direction = .universal ∨ t.direction = .backward)
+    (hnc : ∀ ΓR, theoryTranslate t t.phMap fuel t.program = .ok ΓR →
+      NoSymbolConflictGen (assembledGen t (S.map (SAnn.replacePlaceholders t.phMap)) t.ugAss ΓR))
+    (hvalid : ∀ (J : Interp) (ρ : Asg), ¬ ∃ P ∈ ps, Refutes J ρ P) :
+    ∀ (TL TR : PredI) (fc : FcI) (ρ : Asg),
+      (∀ (q : String) (ds : List Dom), (⟨q, ds.length⟩ : Pred) ∈ t.userGuide.publicPreds → (TL q ds ↔ TR q ds)) →
+      Stable (t.program.substSym (phNu t.phMap fc)) t.userGuide.inputs TR fc →
+      (∀ a ∈ t.userGuide.formulas, a.role = .assumption → sat ⟨TL, fc⟩ (a.formula.replacePlaceholders t.phMap) ρ) →
+      (∀ a ∈ S, lStable a = true → sat ⟨TL, fc⟩ (a.formula.replacePlaceholders t.phMap) ρ) →
+      ∀ a ∈ S, lBwdConc a = true → sat ⟨TL, fc⟩ (a.formula.replacePlaceholders t.phMap) ρ := by
+  obtain ⟨ΓR, hR, hmain⟩ := external_refutes_spec_ph t S hspec hpo hbyp fuel ps h
+  have hpre : precheck t = none := (externalProblems_ph t hpo fuel ps h).1
+  exact external_backward_sound_specification_core t S hspec hbyp hpre fuel ΓR hR hdir
+    (fun J ρ hw => hvalid J ρ ((hmain (hnc ΓR hR) J ρ).mpr hw))
+
+theorem external_forward_sound_specification (t : ExternalTask) (S : Specification)
+    (hspec : t.specification = .inr S) (hpo : t.proofOutline = [])
+    (hbyp : t.bypassTightness = false)
+    (fuel : Nat) (ps : List Problem) (h : externalProblems t fuel = .ok ps)
+    (hdir : t.direction = .universal ∨ t.direction = .forward)
+    (hnc : ∀ ΓR, theoryTranslate t t.phMap fuel t.program = .ok ΓR →
+      NoSymbolConflictGen (assembledGen t (S.map (SAnn.replacePlaceholders t.phMap)) t.ugAss ΓR))
+    (hvalid : ∀ (J : Interp) (ρ : Asg), ¬ ∃ P ∈ ps, Refutes J ρ P) :
+    ∀ (TL : PredI) (fc : FcI) (ρ : Asg),
+      (∀ a ∈ t.userGuide.formulas, a.role = .assumption → sat ⟨TL, fc⟩ (a.formula.replacePlaceholders t.phMap) ρ) →
+      (∀ a ∈ S, lStable a = true → sat ⟨TL, fc⟩ (a.formula.replacePlaceholders t.phMap) ρ) →
+      (∀ a ∈ S, lFwdPrem a = true → sat ⟨TL, fc⟩ (a.formula.replacePlaceholders t.phMap) ρ) →
+      ∃ TR : PredI, Stable (t.program.substSym (phNu t.phMap fc)) t.userGuide.inputs TR fc ∧
+        ∀ (q : String) (ds : List Dom), (⟨q, ds.length⟩ : Pred) ∈ t.userGuide.publicPreds → (TR q ds ↔ TL q ds) := by
+  obtain ⟨ΓR, hR, hmain⟩ := external_refutes_spec_ph t S hspec hpo hbyp fuel ps h
+  have hpre : precheck t = none := (externalProblems_ph t hpo fuel ps h).1
+  exact external_forward_sound_specification_core t S hspec hbyp hpre fuel ΓR hR hdir
+    (fun J ρ hw => hvalid J ρ ((hmain (hnc ΓR hR) J ρ).mpr hw))
+
+/-! ## every accepted task, proof outlines included -/
+
+/-- "all formulas of the specification program's side are true" is "stable model of that program with
+    the placeholders replaced by their values" (the counterpart of `rightSide_stable_ph`) -/
+theorem leftSide_stable_ph (t : ExternalTask) (PL : Program) (hspec : t.specification = .inl PL)
+    (hbyp : t.bypassTightness = false) (hpre : precheck t = none)
+    (fuel : Nat) (ΓL : Theory) (hL : theoryTranslate t t.phMap fuel PL = .ok ΓL) (J : Interp) (ρ : Asg) :
+    (∀ a ∈ leftSide t ΓL, sat J a.formula ρ) ↔
+      Stable (PL.substSym (phNu t.phMap J.fc)) t.userGuide.inputs
+        (restrictTo (ext PL.preds t.userGuide.inputs) J.pred) J.fc ∧ OutputsEmpty t PL J.pred := by
+  obtain ⟨_, hlerr⟩ := precheck_programs t PL hspec hpre
+  obtain ⟨htL, _, hinsL⟩ := C11.programError_none hlerr
+  have htL' : isTight PL = true := htL.resolve_right (by simp [hbyp])
+  obtain ⟨hpL, hsem⟩ := theoryTranslate_ok_ph t t.phMap fuel PL ΓL hL
+  obtain ⟨Γ, hΓ, hsemL⟩ := hsem J
+  have hst := completion_stable (PL.substSym (phNu t.phMap J.fc)) t.userGuide.inputs
+    (by rw [isTight_substSym]; exact htL') (by rw [globalsPanic_substSym]; exact hpL)
+    (by rw [Program.headPreds_substSym]; exact hinsL) Γ hΓ J.pred J.fc ρ
+  rw [Program.preds_substSym] at hst
+  rw [← hst, ← hsemL ρ]
+  unfold leftSide
+  constructor
+  · intro hh F hF
+    obtain ⟨a, ha, rfl⟩ := (controlTranslate_spec _ ΓL).2 F hF
+    exact hh a ha
+  · intro hh a ha
+    exact hh _ ((controlTranslate_spec _ ΓL).1 a ha).1
+
+/-- the difference-witness condition of `external_outline_sound`, for a given specification side -/
+def WitnessOutline (t : ExternalTask) (left : List SAnn) (ΓR : Theory) (J : Interp) (ρ : Asg) : Prop :=
+  (∀ a ∈ t.ugAss, sat J a.formula ρ) ∧
+  (∀ a ∈ left, lStable a = true → sat J a.formula ρ) ∧
+  (∀ a ∈ rightSide t ΓR, a.role = .assumption → sat J a.formula ρ) ∧
+  (((t.direction = .universal ∨ t.direction = .forward) ∧
+      (∀ a ∈ left, lFwdPrem a = true → sat J a.formula ρ) ∧
+      ¬ (Stable (t.program.substSym (phNu t.phMap J.fc)) t.userGuide.inputs
+        (restrictTo (ext t.program.preds t.userGuide.inputs)
+          (renamedInterp t.clashMap J.pred)) J.fc ∧
+        OutputsEmpty t t.program (renamedInterp t.clashMap J.pred))) ∨
+   ((t.direction = .universal ∨ t.direction = .backward) ∧
+      (Stable (t.program.substSym (phNu t.phMap J.fc)) t.userGuide.inputs
+        (restrictTo (ext t.program.preds t.userGuide.inputs)
+          (renamedInterp t.clashMap J.pred)) J.fc ∧
+        OutputsEmpty t t.program (renamedInterp t.clashMap J.pred)) ∧
+      ∃ a ∈ left, lBwdConc a = true ∧ ¬ sat J a.formula ρ))
+
+theorem ugAss_sat (t : ExternalTask) (J : Interp) (ρ : Asg)
+    (h : ∀ a ∈ t.userGuide.formulas, a.role = .assumption → sat J (a.formula.replacePlaceholders t.phMap) ρ) :
+    ∀ a ∈ t.ugAss, sat J a.formula ρ := by
+  intro a ha
+  unfold ExternalTask.ugAss at ha
+  obtain ⟨a0, ha0, rfl⟩ := List.mem_map.mp ha
+  simp only [List.mem_filter, decide_eq_true_eq] at ha0
+  exact h a0 ha0.1 ha0.2
+
+theorem witnessOutline_of_programs (t : ExternalTask) (PL : Program) (hspec : t.specification = .inl PL)
+    (hbyp : t.bypassTightness = false) (hpre : precheck t = none)
+    (fuel : Nat) (ΓL ΓR : Theory) (hL : theoryTranslate t t.phMap fuel PL = .ok ΓL)
+    (hR : theoryTranslate t t.phMap fuel t.program = .ok ΓR) (J : Interp) (ρ : Asg)
+    (hw : WitnessPrograms t PL ΓL ΓR J ρ) : WitnessOutline t (leftSide t ΓL) ΓR J ρ := by
+  obtain ⟨hug, hcases⟩ := hw
+  have huL : UnivSA (leftSide t ΓL) := fun a ha => ((controlTranslate_spec _ ΓL).1 a ha).2
+  rcases hcases with ⟨hdir, hPL, hra, hnPR⟩ | ⟨hdir, hPR, hla, hnPL⟩
+  · have hall := (leftSide_stable_ph t PL hspec hbyp hpre fuel ΓL hL J ρ).mpr hPL
+    exact ⟨ugAss_sat t J ρ hug, fun a ha _ => hall a ha, hra, Or.inl ⟨hdir, fun a ha _ => hall a ha, hnPR⟩⟩
+  · have hallR := (rightSide_stable_ph t hbyp hpre fuel ΓR hR J ρ).mpr hPR
+    refine ⟨ugAss_sat t J ρ hug, ?_, fun a ha _ => hallR a ha, Or.inr ⟨hdir, hPR, ?_⟩⟩
+    · intro a ha hs
+      refine hla a ha ?_
+      simp only [lStable, Bool.and_eq_true, decide_eq_true_eq] at hs
+      exact hs.1
+    · have hnall : ¬ ∀ a ∈ leftSide t ΓL, sat J a.formula ρ :=
+        fun hall => hnPL ((leftSide_stable_ph t PL hspec hbyp hpre fuel ΓL hL J ρ).mp hall)
+      refine Classical.byContradiction fun hne => hnall fun a ha => ?_
+      refine Classical.byContradiction fun hs => hne ⟨a, ha, ?_, hs⟩
+      obtain ⟨hd, hr⟩ := huL a ha
+      rcases hr with hr | hr
+      · simp [lBwdConc, hd, hr]
+      · exact absurd (hla a ha hr) hs
+
+theorem witnessOutline_of_spec (t : ExternalTask) (S : Specification) (ΓR : Theory) (J : Interp) (ρ : Asg)
+    (hw : WitnessSpec t S ΓR J ρ) : WitnessOutline t (S.map (SAnn.replacePlaceholders t.phMap)) ΓR J ρ := by
+  obtain ⟨hug, hst, hra, hcases⟩ := hw
+  refine ⟨ugAss_sat t J ρ hug, ?_, hra, ?_⟩
+  · intro a ha hs
+    obtain ⟨a0, ha0, rfl⟩ := List.mem_map.mp ha
+    exact hst a0 ha0 hs
+  · rcases hcases with ⟨hdir, hfp, hn⟩ | ⟨hdir, hPR, a0, ha0, hc, hns⟩
+    · refine Or.inl ⟨hdir, ?_, hn⟩
+      intro a ha hs
+      obtain ⟨a0, ha0, rfl⟩ := List.mem_map.mp ha
+      exact hfp a0 ha0 hs
+    · exact Or.inr ⟨hdir, hPR, a0.replacePlaceholders t.phMap, List.mem_map.mpr ⟨a0, ha0, rfl⟩, hc, hns⟩
+
+/-- **C02 at the level of the programs, for every accepted program-vs-program task - placeholders,
+    simplification, proof outline and all.** For the translated theories and the accepted outline `po`
+    of the task: if `rename_conflicting_symbols` changes nothing (`NoConflictAll`, decidable) and no
+    emitted problem (outline problems and final problems) has a countermodel, then in each requested
+    direction every stable model of one program, for input facts and constants that satisfy the
+    user-guide assumptions, has the same public part as some stable model of the other. -/
+theorem programs_equivalent_of_valid_problems (t : ExternalTask) (PL : Program)
+    (hspec : t.specification = .inl PL) (hbyp : t.bypassTightness = false)
+    (fuel : Nat) (ps : List Problem) (h : externalProblems t fuel = .ok ps) :
+    ∃ (ΓL ΓR : Theory) (po : ProofOutline),
+      theoryTranslate t t.phMap fuel PL = .ok ΓL ∧ theoryTranslate t t.phMap fuel t.program = .ok ΓR ∧
+      (Outline.NoConflictAll (assembledGen t (leftSide t ΓL) t.ugAss ΓR) ((rightSide t ΓR).filter isSpec)
+          ((leftSide t ΓL).filter lBwdConc) t.breakEq po →
+        (∀ P ∈ ps, ∀ J ρ, ¬ Refutes J ρ P) →
+        ((t.direction = .universal ∨ t.direction = .forward) →
+          ∀ (TL : PredI) (fc : FcI) (ρ : Asg),
+            (∀ a ∈ t.userGuide.formulas, a.role = .assumption → sat ⟨TL, fc⟩ (a.formula.replacePlaceholders t.phMap) ρ) →
+            Stable (PL.substSym (phNu t.phMap fc)) t.userGuide.inputs TL fc →
+            ∃ TR : PredI, Stable (t.program.substSym (phNu t.phMap fc)) t.userGuide.inputs TR fc ∧
+              ∀ (q : String) (ds : List Dom), (⟨q, ds.length⟩ : Pred) ∈ t.userGuide.publicPreds → (TR q ds ↔ TL q ds)) ∧
+        ((t.direction = .universal ∨ t.direction = .backward) →
+          ∀ (TR : PredI) (fc : FcI) (ρ : Asg),
+            (∀ a ∈ t.userGuide.formulas, a.role = .assumption → sat ⟨TR, fc⟩ (a.formula.replacePlaceholders t.phMap) ρ) →
+            Stable (t.program.substSym (phNu t.phMap fc)) t.userGuide.inputs TR fc →
+            ∃ TL : PredI, Stable (PL.substSym (phNu t.phMap fc)) t.userGuide.inputs TL fc ∧
+              ∀ (q : String) (ds : List Dom), (⟨q, ds.length⟩ : Pred) ∈ t.userGuide.publicPreds → (TL q ds ↔ TR q ds))) := by
+  have hpre : precheck t = none := (Outline.externalProblems_outline t fuel ps h).1
+  obtain ⟨left, ΓR, po, hleft, hR, himp⟩ := Outline.external_outline_sound t hbyp fuel ps h
+  simp only [hspec] at hleft
+  obtain ⟨ΓL, hL, rfl⟩ := hleft
+  refine ⟨ΓL, ΓR, po, hL, hR, fun hnc hvalid => ?_⟩
+  have hsO := himp hnc hvalid
+  have hsound : ∀ (J : Interp) (ρ : Asg), ¬ WitnessPrograms t PL ΓL ΓR J ρ :=
+    fun J ρ hw => hsO J ρ (witnessOutline_of_programs t PL hspec hbyp hpre fuel ΓL ΓR hL hR J ρ hw)
+  exact ⟨fun hdir => external_forward_sound_programs_core t PL hspec hbyp hpre fuel ΓL ΓR hL hR hdir hsound,
+    fun hdir => external_backward_sound_programs_core t PL hspec hbyp hpre fuel ΓL ΓR hL hR hdir hsound⟩
+
+/-- **The same for every accepted specification-vs-program task.** -/
+theorem specification_met_of_valid_problems (t : ExternalTask) (S : Specification)
+    (hspec : t.specification = .inr S) (hbyp : t.bypassTightness = false)
+    (fuel : Nat) (ps : List Problem) (h : externalProblems t fuel = .ok ps) :
+    ∃ (ΓR : Theory) (po : ProofOutline),
+      theoryTranslate t t.phMap fuel t.program = .ok ΓR ∧
+      (Outline.NoConflictAll (assembledGen t (S.map (SAnn.replacePlaceholders t.phMap)) t.ugAss ΓR)
+          ((rightSide t ΓR).filter isSpec) ((S.map (SAnn.replacePlaceholders t.phMap)).filter lBwdConc) t.breakEq po →
+        (∀ P ∈ ps, ∀ J ρ, ¬ Refutes J ρ P) →
+        ((t.direction = .universal ∨ t.direction = .backward) →
+          ∀ (TL TR : PredI) (fc : FcI) (ρ : Asg),
+            (∀ (q : String) (ds : List Dom), (⟨q, ds.length⟩ : Pred) ∈ t.userGuide.publicPreds → (TL q ds ↔ TR q ds)) →
+            Stable (t.program.substSym (phNu t.phMap fc)) t.userGuide.inputs TR fc →
+            (∀ a ∈ t.userGuide.formulas, a.role = .assumption → sat ⟨TL, fc⟩ (a.formula.replacePlaceholders t.phMap) ρ) →
+            (∀ a ∈ S, lStable a = true → sat ⟨TL, fc⟩ (a.formula.replacePlaceholders t.phMap) ρ) →
+            ∀ a ∈ S, lBwdConc a = true → sat ⟨TL, fc⟩ (a.formula.replacePlaceholders t.phMap) ρ) ∧
+        ((t.direction = .universal ∨ t.direction = .forward) →
+          ∀ (TL : PredI) (fc : FcI) (ρ : Asg),
+            (∀ a ∈ t.userGuide.formulas, a.role = .assumption → sat ⟨TL, fc⟩ (a.formula.replacePlaceholders t.phMap) ρ) →
+            (∀ a ∈ S, lStable a = true → sat ⟨TL, fc⟩ (a.formula.replacePlaceholders t.phMap) ρ) →
+            (∀ a ∈ S, lFwdPrem a = true → sat ⟨TL, fc⟩ (a.formula.replacePlaceholders t.phMap) ρ) →
+            ∃ TR : PredI, Stable (t.program.substSym (phNu t.phMap fc)) t.userGuide.inputs TR fc ∧
+              ∀ (q : String) (ds : List Dom), (⟨q, ds.length⟩ : Pred) ∈ t.userGuide.publicPreds → (TR q ds ↔ TL q ds))) := by
+  have hpre : precheck t = none := (Outline.externalProblems_outline t fuel ps h).1
+  obtain ⟨left, ΓR, po, hleft, hR, himp⟩ := Outline.external_outline_sound t hbyp fuel ps h
+  simp only [hspec] at hleft
+  subst hleft
+  refine ⟨ΓR, po, hR, fun hnc hvalid => ?_⟩
+  have hsO := himp hnc hvalid
+  have hsound : ∀ (J : Interp) (ρ : Asg), ¬ WitnessSpec t S ΓR J ρ :=
+    fun J ρ hw => hsO J ρ (witnessOutline_of_spec t S ΓR J ρ hw)
+  exact ⟨fun hdir => external_backward_sound_specification_core t S hspec hbyp hpre fuel ΓR hR hdir hsound,
+    fun hdir => external_forward_sound_specification_core t S hspec hbyp hpre fuel ΓR hR hdir hsound⟩
 
 end Anthem
